@@ -255,6 +255,14 @@ def m_opaque_clone(I, st, inst, args):
 @model("<* as syn::parse::Parser>::parse2", "<* as syn::parse::Parser>::parse_str")
 def m_parser_parse2(I, st, inst, args):
     src = args[1]
+    if isinstance(src, Opaque) and src.kind == "TokenStream" and src.data[0] == "toks" and not src.data[1]:
+        # an empty stream parses to an empty list
+        name = "parse(empty)"
+        st.decisions[name + "#d"] = 0
+        st.decisions[name + ".Ok.0#len"] = 0
+        I.domains.setdefault(name + "#d", [0])
+        I.domains.setdefault(name + ".Ok.0#len", [0])
+        return Lazy(name, inst.sig[-1])
     if isinstance(src, Opaque) and src.kind == "TokenStream" and src.data[0] == "in":
         name = src.data[1] + ".parsed"
     elif isinstance(src, Opaque):
@@ -476,3 +484,116 @@ def _syn_variants(self, I, st, lz, t):
 
 
 SynPolicy.variants = _syn_variants
+
+
+# ---------------------------------------------------------------------------- token streams (append-only lists of abstract tokens)
+def ts_tokens(v):
+    if isinstance(v, Opaque) and v.kind == "TokenStream" and v.data and v.data[0] == "toks":
+        return v.data[1]
+    return None
+
+
+@model("proc_macro2::TokenStream::new", "<proc_macro2::TokenStream as std::default::Default>::default")
+def m_ts_new(I, st, inst, args):
+    return Opaque("TokenStream", ("toks", ()))
+
+
+@model("<syn::* as *ToTokens>::to_tokens", "<proc_macro2::Ident as *ToTokens>::to_tokens", "<proc_macro2::Literal as *ToTokens>::to_tokens",
+       "<proc_macro2::TokenStream as *ToTokens>::to_tokens", "<proc_macro2::Group as *ToTokens>::to_tokens", "<proc_macro2::Punct as *ToTokens>::to_tokens",
+       "syn::gen::*<impl *ToTokens for syn::*>::to_tokens", "syn::*::printing::<impl *ToTokens for syn::*>::to_tokens")
+def m_syn_to_tokens(I, st, inst, args):
+    """appending a whole syntax node: the stream records the node (value snapshot + its type)"""
+    node = I.read(st, args[0], expand_scalar=False)
+    ts = I.read(st, args[1])
+    toks = ts_tokens(ts)
+    if toks is None:
+        raise Unsupported("to_tokens into %r" % (ts,))
+    tname = inst.name.split(" as ")[0].lstrip("<") if " as " in inst.name else inst.name.split(" for ")[-1].split(">")[0]
+    origin = node.name if isinstance(node, Lazy) else None
+    I.write(st, args[1], Opaque("TokenStream", ("toks", toks + (("node", tname, node, origin),))))
+    return UNIT
+
+
+def path_strings(I, st, pv, here=None):
+    """(leading colon?, [segment ident strings]) of a syn::Path value (forcing what is needed)"""
+    if isinstance(pv, Lazy):
+        pv = I.lazy.expand(I, st, pv, here)
+    lead, segs = pv.f[0], pv.f[1]
+    if isinstance(lead, Lazy):
+        lead = I.lazy.expand(I, st, lead, None)     # undecided: the main loop forks and re-runs the step
+    if isinstance(segs, Lazy):
+        segs = I.lazy.expand(I, st, segs, None)
+    inner, last = segs.f
+    out = []
+    elems = [p.f[0] for p in inner.elems]
+    if isinstance(last, Agg) and last.v == 1:
+        b = I.unwrap_ptr(last.f[0], st)
+        elems.append(I.read(st, b, expand_scalar=False))
+    for sgm in elems:
+        if isinstance(sgm, Lazy):
+            sgm = I.lazy.expand(I, st, sgm, None)
+        idv = sgm.f[0]
+        if isinstance(idv, Lazy):
+            idv = I.lazy.expand(I, st, idv, None)
+        out.append(idv.data[0])
+    return (isinstance(lead, Agg) and lead.v == 1), out
+
+
+def render_tokens(I, st, toks):
+    """proc_macro2 fallback printer (token-level spacing) for the token kinds that are supported"""
+    parts = []
+    for t in toks:
+        if t[0] == "node" and t[1].endswith("Path"):
+            lead, segs = path_strings(I, st, t[2])
+            s = ":: " if lead else ""
+            for i, sg in enumerate(segs):
+                if i:
+                    s = scat(s, " :: ")
+                s = scat(s, sg)
+            parts.append(s)
+        elif t[0] == "node" and t[1].endswith("Ident"):
+            parts.append(t[2].data[0])
+        else:
+            raise Unsupported("printing of token %r" % (t[:2],))
+    out = ""
+    for i, p in enumerate(parts):
+        if i:
+            out = scat(out, " ")
+        out = scat(out, p)
+    return out
+
+
+_old_display = SynPolicy.display
+
+
+def _display_ts(self, I, st, ptr, t, kind):
+    n = t.adt["name"]
+    if n == "proc_macro2::TokenStream":
+        v = I.read(st, ptr)
+        toks = ts_tokens(v)
+        if toks is None:
+            raise Unsupported("printing a symbolic input token stream")
+        return [(st, render_tokens(I, st, toks))]
+    return _old_display(self, I, st, ptr, t, kind)
+
+
+SynPolicy.display = _display_ts
+
+
+@model("proc_macro2::Group::new")
+def m_group_new(I, st, inst, args):
+    return Opaque("Group", ("new", args[0], args[1], ("call_site",)))
+
+
+@model("proc_macro2::Group::set_span")
+def m_group_set_span(I, st, inst, args):
+    g = I.read(st, args[0])
+    I.write(st, args[0], Opaque("Group", g.data[:3] + (span_of(args[1]).data,)))
+    return UNIT
+
+
+@model("proc_macro2::Group::delim_span", "proc_macro2::Group::span")
+def m_group_delim_span(I, st, inst, args):
+    g = I.read(st, args[0])
+    sp = g.data[3] if g.data and g.data[0] == "new" else g.data
+    return Opaque("DelimSpan" if inst.name.endswith("delim_span") else "Span", sp)
